@@ -95,7 +95,7 @@ func buildTagFields(rt reflect.Type, out, pretty, embedded, omitEmpty bool) (fa 
 		if len(name) == 0 || 'a' <= name[0] {
 			continue
 		}
-		if f.Anonymous && !out {
+		if f.Anonymous && !out && embedsStruct(f.Type) {
 			if f.Type.Kind() == reflect.Ptr {
 				for _, fi := range buildTagFields(f.Type.Elem(), out, pretty, embedded, omitEmpty) {
 					fi.index = append([]int{i}, fi.index...)
@@ -148,7 +148,7 @@ func buildExactFields(rt reflect.Type, out, pretty, embedded, omitEmpty bool) (f
 		if len(name) == 0 || 'a' <= name[0] {
 			continue
 		}
-		if f.Anonymous && !out {
+		if f.Anonymous && !out && embedsStruct(f.Type) {
 			if f.Type.Kind() == reflect.Ptr {
 				for _, fi := range buildExactFields(f.Type.Elem(), out, pretty, embedded, omitEmpty) {
 					fi.index = append([]int{i}, fi.index...)
@@ -176,7 +176,7 @@ func buildLowFields(rt reflect.Type, out, pretty, embedded, omitEmpty bool) (fa 
 		if len(name) == 0 || 'a' <= name[0] {
 			continue
 		}
-		if f.Anonymous && !out {
+		if f.Anonymous && !out && embedsStruct(f.Type) {
 			if f.Type.Kind() == reflect.Ptr {
 				for _, fi := range buildLowFields(f.Type.Elem(), out, pretty, embedded, omitEmpty) {
 					fi.index = append([]int{i}, fi.index...)
@@ -202,4 +202,14 @@ func buildLowFields(rt reflect.Type, out, pretty, embedded, omitEmpty bool) (fa 
 		}
 	}
 	return
+}
+
+// embedsStruct returns true if the fields of an embedded field of the type
+// are promoted which is only the case for a struct or a pointer to a
+// struct. An embedded field of any other type is a field like any other.
+func embedsStruct(rt reflect.Type) bool {
+	if rt.Kind() == reflect.Ptr {
+		rt = rt.Elem()
+	}
+	return rt.Kind() == reflect.Struct
 }
